@@ -103,7 +103,7 @@ type gctx struct {
 	forced  map[int]Cond // predicate conditions fixed by an idiom
 }
 
-var asciiAlpha = []string{"a", "b", "c", "A", "B", "x", "+", "1", "\n", " "}
+var asciiAlpha = []string{"a", "b", "c", "A", "B", "x", "+", "1", "\n", " ", "\r", "\t"}
 var nonAsciiAlpha = []string{"é", "K", "k", "K", "�", "ß", "Σ", "σ", "ς", "\U0001F600", "\ufeff", "\u0301", "\u200d"}
 var labelNames = []string{"x", "y", "z"}
 var stateKeys = []string{"k", "m"}
@@ -159,6 +159,10 @@ func escClassRune(s string) string {
 	switch s {
 	case "\n":
 		return `\n`
+	case "\r":
+		return `\r`
+	case "\t":
+		return `\t`
 	case "]", "\\", "-", "^":
 		return `\` + s
 	}
